@@ -1,0 +1,103 @@
+//go:build verif
+
+// Package verifhook emits a trace of the pipeline's critical sections for external conformance checking.
+// It is compiled in only with the `verif` build tag; see hook_off.go for the default no-op build.
+package verifhook
+
+import (
+	"encoding/json"
+	"fmt"
+	"os"
+	"sort"
+	"strconv"
+	"strings"
+	"sync"
+)
+
+// On reports whether tracing hooks are compiled in.
+const On = true
+
+var (
+	mu       sync.Mutex
+	seq      int
+	orderPos int
+)
+
+// Emit appends one NDJSON event {"seq":n,"event":name,k:v,...} to the file named by $VERIF_TRACE (no-op when unset).
+// kv is a flat list of alternating keys and values. Events are sequence-numbered under a lock; no wall clock is used.
+func Emit(event string, kv ...any) {
+	path := os.Getenv("VERIF_TRACE")
+	if path == "" {
+		return
+	}
+	mu.Lock()
+	defer mu.Unlock()
+	seq++
+	rec := map[string]any{"seq": seq, "event": event}
+	for i := 0; i+1 < len(kv); i += 2 {
+		rec[fmt.Sprint(kv[i])] = kv[i+1]
+	}
+	line, err := json.Marshal(rec)
+	if err != nil {
+		line = []byte(fmt.Sprintf(`{"seq":%d,"event":%q,"marshal_error":%q}`, seq, event, err.Error()))
+	}
+	f, err := os.OpenFile(path, os.O_APPEND|os.O_CREATE|os.O_WRONLY, 0o644)
+	if err != nil {
+		return
+	}
+	defer f.Close()
+	f.Write(append(line, '\n'))
+}
+
+// Permute is a scheduler gate for code whose result order comes from map iteration. When $VERIF_ORDER is set to a
+// ';'-separated list of permutations (each a ','-separated list of indices, or "rev"/"id"), the n-th call reorders its
+// slice - first sorted by key so that indices are meaningful - by the n-th permutation; calls beyond the list use the
+// last entry. Without $VERIF_ORDER the slice is returned untouched.
+func Permute[T any](site string, items []T, key func(T) string) []T {
+	spec := os.Getenv("VERIF_ORDER")
+	if spec == "" || len(items) < 2 {
+		return items
+	}
+	mu.Lock()
+	perms := strings.Split(spec, ";")
+	idx := orderPos
+	if idx >= len(perms) {
+		idx = len(perms) - 1
+	}
+	orderPos++
+	mu.Unlock()
+
+	sorted := append([]T(nil), items...)
+	sort.SliceStable(sorted, func(i, j int) bool { return key(sorted[i]) < key(sorted[j]) })
+	p := perms[idx]
+	out := make([]T, 0, len(sorted))
+	switch p {
+	case "id", "":
+		out = sorted
+	case "rev":
+		for i := len(sorted) - 1; i >= 0; i-- {
+			out = append(out, sorted[i])
+		}
+	default:
+		used := map[int]bool{}
+		for _, s := range strings.Split(p, ",") {
+			n, err := strconv.Atoi(strings.TrimSpace(s))
+			if err != nil || n < 0 || n >= len(sorted) || used[n] {
+				continue
+			}
+			used[n] = true
+			out = append(out, sorted[n])
+		}
+		for i := range sorted {
+			if !used[i] {
+				out = append(out, sorted[i])
+			}
+		}
+	}
+	keys := make([]string, len(out))
+	for i := range out {
+		keys[i] = key(out[i])
+	}
+	Emit("Permute", "site", site, "order", keys)
+	return out
+}
